@@ -670,6 +670,22 @@ func main() {
 		k.flush()
 	})
 
+	// ---- the same helper oracle from many goroutines at once -------------------------------
+	// The helpers are pure functions of the instant: concurrent callers with different instants
+	// must each get their own answer (a shared scratch buffer or cache would show only here).
+	c.ParallelCases("helpers-parallel", c.N(8*16, 64*16), 8, func(i int, r *vlib.Rand) {
+		kk := newChecker(c)
+		const per = 4000
+		for j := 0; j < per; j++ {
+			kk.resetOrder()
+			kk.check(randomInstant(r))
+		}
+		kk.cnt["instants_checked_by_concurrent_callers"] += per
+		kk.flush()
+		c.Eval(per - 1)
+		c.DistinctEnum(1)
+	})
+
 	// ---- DateFormat: generated patterns -------------------------------------------------
 	const perPattern = 64
 	c.Cases("fmt", c.N(4000, 200000), func(i int, r *vlib.Rand) {
